@@ -328,10 +328,17 @@ func c11sFactsSession(c *factsCtx, outdir string) error {
 		}
 	}
 
-	// ---- response.Bad: the tag when called with an argument --------------------------------------
-	var badCtor []string
-	if fd := c11sFindFunc(c.parseDir("internal/response"), "Bad"); fd != nil {
+	// ---- response.Bad / No / Ok: the tag when called with an argument -------------------------------
+	var badCtor, noCtor, okCtor []string
+	respFiles := c.parseDir("internal/response")
+	if fd := c11sFindFunc(respFiles, "Bad"); fd != nil {
 		badCtor = c11sSkeleton(c, fd.Body.List)
+	}
+	if fd := c11sFindFunc(respFiles, "No"); fd != nil {
+		noCtor = c11sSkeleton(c, fd.Body.List)
+	}
+	if fd := c11sFindFunc(respFiles, "Ok"); fd != nil {
+		okCtor = c11sSkeleton(c, fd.Body.List)
 	}
 
 	var b strings.Builder
@@ -363,6 +370,10 @@ func c11sFactsSession(c *factsCtx, outdir string) error {
 	b.WriteString("/-- `command.Parser.Parse`: the results of its return statements, in source order -/\n")
 	fmt.Fprintf(&b, "def parseReturns : List String := %s\n\n", leanStrList(parseReturns))
 	b.WriteString("/-- `response.Bad`: skeleton of the constructor -/\n")
-	fmt.Fprintf(&b, "def responseBadCtor : List String := %s\n\nend Gluon.Facts\n", leanStrList(badCtor))
+	fmt.Fprintf(&b, "def responseBadCtor : List String := %s\n\n", leanStrList(badCtor))
+	b.WriteString("/-- `response.No`: skeleton of the constructor -/\n")
+	fmt.Fprintf(&b, "def responseNoCtor : List String := %s\n\n", leanStrList(noCtor))
+	b.WriteString("/-- `response.Ok`: skeleton of the constructor -/\n")
+	fmt.Fprintf(&b, "def responseOkCtor : List String := %s\n\nend Gluon.Facts\n", leanStrList(okCtor))
 	return writeLean(outdir, "Session.lean", b.String())
 }
